@@ -27,9 +27,11 @@
 //	shape -> <locks>:<unlocks>:<deferred unlocks>:<other lock calls>:<recv.Lock() first>:
 //	         <defer recv.Unlock() next>     (hex; "missing" when there is no such method)
 //
-// In gate mode the harness keeps the lock for 1.5 ms after the last call of the round is pending: a
-// waiter that has waited longer than 1 ms switches the mutex to starvation mode (FIFO hand-off), so
-// a method that takes the lock twice is really interleaved with the other calls of the round.
+// In gate mode the harness keeps the lock for 1.5 ms after the last call of the round is pending: then
+// releases it and takes it back at once (barging) for 0.1 ms.  The caller woken by the release finds
+// the mutex taken after having waited longer than 1 ms and switches it to starvation mode (FIFO
+// hand-off, no barging), so a method that takes the lock twice is really interleaved with the other
+// calls of the round.
 //
 // The conc and probe cases depend on the scheduler: their observables are histories, every one of
 // which must be linearizable (conc) / must not show a mutation under a lock held by someone else.
@@ -223,6 +225,9 @@ func c35Conc(capacity uint, prefill []string, progs [][]string, mode string) str
 				runtime.Gosched()
 			}
 			time.Sleep(1500 * time.Microsecond) // see the header: starvation mode
+			c.Unlock()
+			c.Lock() // barge: the woken caller finds the mutex taken again after > 1 ms of waiting
+			time.Sleep(100 * time.Microsecond)
 			c.Unlock()
 			for returned.Load() < want { // the round must drain before the gate closes again
 				runtime.Gosched()
